@@ -417,6 +417,52 @@ def rule_R8_isolation(ctx, prj, rid="R8"):
             ctx.ok(rid, site, f"{ci.name}: a new instance is unaffected by {filler}() on an earlier one")
 
 
+def rule_R9_paths(ctx, prj) -> bool:
+    """exactly-once aggregation on the two paths a codebase takes, evaluated: the document scan_command writes for a virtual tree,
+    and the report ReportReader.from_json rebuilds from it, carry for every folder the profile its files give - not twice that"""
+    import json
+    from ..absint import PyRaise, Unknown
+    from .. import scan_eval as S
+    from ..report_eval import ReportLab
+    ctx.rule("R9", "aggregation applied exactly once, evaluated on both paths: in the document written by the interpreted scan_command "
+                   "for a virtual tree (three files, functions of 40+7, 61+16+31 and 15 lines) and in the report the interpreted reader "
+                   "rebuilds from that document, every folder profile and every language total equals what its files give", floor=0)
+    sc = prj.func("codelimit.commands.scan:scan_command")
+    try:
+        out = S.scan(prj, S.State())
+        if out.raised:
+            raise Unknown(f"scan raises {out.raised}")
+        doc = json.loads(out.state.texts[S.DOC])
+        cat = lambda v: 0 if v <= 15 else 1 if v <= 30 else 2 if v <= 60 else 3
+
+        def prof(paths):
+            p = [0, 0, 0, 0]
+            for f, vals in S.LENGTHS.items():
+                rel = "sub/c.py" if f == "c.py" else f
+                if any(rel.startswith(x) for x in paths):
+                    for v in vals:
+                        p[cat(v)] += v
+            return p
+        want = {"./": prof([""]), "sub/": prof(["sub/"])}
+        got = {k: v.get("profile") for k, v in doc["codebase"]["tree"].items()}
+        back = ReportLab(prj).read(out.state.texts[S.DOC])
+        got2 = {k: list(f.fields.get("profile")) for k, f in back.fields["codebase"].fields["tree"].items()}
+    except (Unknown, PyRaise, KeyError, TypeError, ValueError, AttributeError) as e:
+        ctx.info(f"R9: scan_command / the reader not evaluable for the folder profiles ({type(e).__name__}: {e}); the structural rule R5 decides")
+        return False
+    ok = True
+    for name, g in (("the document written by scan", got), ("the report read back from that document", got2)):
+        if g != want:
+            k = next(k for k in want if g.get(k) != want[k])
+            twice = g.get(k) == [2 * x for x in want[k]]
+            ctx.viol("R9", "aggregate/" + ("twice" if twice else "profile"), sc.site(),
+                     f"in {name} folder {k!r} has profile {g.get(k)}; its files give {want[k]}" + (": aggregate() was applied twice" if twice else ""))
+            ok = False
+        else:
+            ctx.ok("R9", sc.site(), f"{name}: folder profiles {g} equal what the files give (aggregated exactly once)")
+    return ok
+
+
 def run(ctx, prj: Project):
     ctx.explanation = (
         "Agreement of the three redundant views (per-language totals, folder-tree profiles, per-file data) decided as "
@@ -432,6 +478,8 @@ def run(ctx, prj: Project):
     evaluated = rule_R7_tree(ctx, prj)
     if not evaluated:
         rule_R4(ctx, prj)
-    rule_R5(ctx, prj, form=not evaluated)
+    once = rule_R9_paths(ctx, prj)
+    ctx.complement("R5", lambda: rule_R5(ctx, prj, form=not evaluated), decided=bool(once and evaluated), demote=True,
+                   by="the evaluated tree (R7) and the evaluated scan / read paths (R9)")
     rule_R6(ctx, prj)
     rule_R8_isolation(ctx, prj)
